@@ -11,10 +11,18 @@ os.makedirs("/tmp/benw", exist_ok=True)
 if not os.path.exists(wt):
     subprocess.run(["git", "-C", "/repo", "worktree", "add", "-q", "--detach", wt, "HEAD"], check=True)
 os.makedirs(out, exist_ok=True)
+prev = []
+for d in sorted(os.listdir(os.path.join(ROOT, "benign"))) if os.path.isdir(os.path.join(ROOT, "benign")) else []:
+    if d.startswith(pid + "-"):
+        m = json.load(open(os.path.join(ROOT, "benign", d, "meta.json")))
+        prev.append("- " + " ".join(m.get("summary", "").split())[:350])
+prevtext = "\n".join(prev) if prev else "- (none yet)"
 text = json.dumps({k: prop[k] for k in ("id", "title", "statement", "quantifier", "why_tests_cant", "anchors")}, indent=1)
 print(f"""You are helping to evaluate a verification effort for the Python library testtools (extensions to unittest). You work ONLY inside your own scratch git worktree of the library at {wt} (a checkout of the current source; the package is the directory {wt}/testtools) and write your deliverables to {out}/ . Do not read or write anything under /verif or /repo, and do not look for other people's work elsewhere on the machine. Never use `git stash` (it is shared with other people's worktrees of the same repository): to get back to a clean tree save your diff to a file, `git checkout -- .`, re-apply with `git apply`.
 
-Below is a semantic property that the library satisfies. Your task: produce THREE independent, realistic code changes to the mechanisms named in the property's anchors (k = 1, 2, 3) that a maintainer could plausibly commit and that PRESERVE the property - for EVERY input, history, schedule or configuration the property quantifies over, not just the common ones - while changing the code substantially enough that a verification tool which was over-fitted to the current implementation (its exact internal steps, data structures, wording of messages, order of events the property does not constrain, names of private attributes, which helper calls which) could be fooled into raising a false alarm. Good candidates: restructuring control flow (loops <-> comprehensions, early returns, try/finally <-> context managers, recursion <-> explicit stack), renaming/merging/splitting private helpers, changing internal representations (list <-> dict <-> set where order does not matter to the property), changing the wording of messages / reprs that the property does not pin down, reordering independent statements, caching that is correctly invalidated, defensive copies, stricter-but-equivalent argument handling, behaviour changes confined to inputs the property does not quantify over. Each change must
+Below is a semantic property that the library satisfies. Your task: produce THREE independent, realistic code changes to the mechanisms named in the property's anchors (k = 1, 2, 3) that a maintainer could plausibly commit and that PRESERVE the property - for EVERY input, history, schedule or configuration the property quantifies over, not just the common ones - while changing the code substantially enough that a verification tool which was over-fitted to the current implementation (its exact internal steps, data structures, wording of messages, order of events the property does not constrain, names of private attributes, which helper calls which) could be fooled into raising a false alarm. Good candidates: restructuring control flow (loops <-> comprehensions, early returns, try/finally <-> context managers, recursion <-> explicit stack), renaming/merging/splitting private helpers, changing internal representations (list <-> dict <-> set where order does not matter to the property), changing the wording of messages / reprs that the property does not pin down, reordering independent statements, caching that is correctly invalidated, defensive copies, stricter-but-equivalent argument handling, behaviour changes confined to inputs the property does not quantify over. The three changes must differ from each other and from these changes that others already produced for this property (go for other mechanisms, other styles of rewrite, and for behaviour changes confined to inputs OUTSIDE the property's quantifier):
+{prevtext}
+Each change must
   * keep the package importable and the existing test suite at exactly the same results (`cd {wt} && PYTHONPATH={wt} /venv/bin/python -m pytest -q -p no:cacheprovider --timeout=900 --continue-on-collection-errors 2>&1 | tail -5`; on this machine the unchanged tree has 1327 passing and 38 failing tests, the failures are environmental and must stay the same set);
   * really preserve the property: think adversarially about unusual inputs, fault paths, re-use of objects, multi-step histories and interleavings before you settle on it, and write down the argument.
 For each k write into {out}/ :
